@@ -661,8 +661,11 @@ def c15(F: Facts):
         for seq, t, a_, bb, ev, oc, hl in F.disps:
             if bb == bus and oc == 'ok' and seq < e:
                 tq = max(tq, t)
+        mine = {ev for (bb, ev), s in F.accepted.items() if bb == bus and s < e}
         for (bb, ev), lst in F.pe.items():
-            if bb == bus:
+            # the bus counts an event of its history as started until every bus that accepted it is done with it
+            # (status is derived from all results of the event), so activity on those buses counts too
+            if bb == bus or ev in mine:
                 for p in lst:
                     if p[1] is not None and p[1] < e:
                         tq = max(tq, p[5])
@@ -673,9 +676,45 @@ def c15(F: Facts):
             out.append(V('C15', 'late_return', (bus, actor), idle_since=tq, returned=te, slack=slack))
     hv = hang_violations(F, 'C15')
     for v in hv:
-        if any(w[0] == 'wait_idle' for w in v['detail']['waiting']):
+        owed = [w for w in v['detail']['waiting'] if w[0] == 'wait_idle' and not _lost_in_flight_by_cancel(F, w[2])
+                and not _cancelled_under_the_call(F, w[1], w[2])]
+        if owed:
             out.append(v)
     return out
+
+
+def _cancelled_under_the_call(F: Facts, actor, bus):
+    """The bus's run-loop task was cancelled from outside (injected fault) while this wait_until_idle() was already in
+    progress.  The statement promises a return whatever happened to earlier *events*; it does not cover the bus's own
+    task being taken away under a call in progress (a call made afterwards revives the run loop and is owed a return)."""
+    for x in F.idles:
+        if x[0] == bus and x[6] == actor and x[2] is None:
+            for seq, t, target, by in F.cancels:
+                if target != 'runloop:' + bus:
+                    continue
+                # in progress when the cancellation was requested, or begun while the cancelled task was still unwinding
+                gone = min((s for s, b in F.runloop_exits if b == bus and s > seq), default=F.last_seq)
+                if seq > x[1] or gone > x[1]:
+                    return True
+    return False
+
+
+def _lost_in_flight_by_cancel(F: Facts, bus):
+    """The bus's run-loop task was cancelled from outside (injected fault) while it held an event it had taken off the
+    queue and not started: that event is gone with the task (C16: cancellation terminates the task), the bus never
+    becomes idle again, so a wait_until_idle() is not owed a return."""
+    for seq, t, target, by in F.cancels:
+        if target != 'runloop:' + bus:
+            continue
+        # (the cancelled task takes a few callbacks to unwind: what its getter received meanwhile is lost as well)
+        gone = min((s for s, b in F.runloop_exits if b == bus and s > seq), default=F.last_seq)
+        for (bb, ev), lst in F.deq.items():
+            if bb != bus:
+                continue
+            for dseq, mode in lst:
+                if mode == 'runloop' and dseq < gone and not any(p[0] > dseq for p in F.pe.get((bb, ev), ())):
+                    return True
+    return False
 
 
 # --- C16 ---------------------------------------------------------------------------
